@@ -127,6 +127,10 @@ func runWire(t *testing.T, hostile []wireFrame) *wireOutcome {
 	if _, err := player.Play(s.RTSP(path2)); err != nil {
 		t.Fatalf("machinery: PLAY dialogue of the second session: %v", err)
 	}
+	// ipchub answers PLAY before it registers the consumer: publish only once it is there
+	if !srv.WaitFor(wireTimeout, func() bool { return srv.Consumers(path2) >= 1 }) {
+		t.Fatalf("machinery: the player was not registered as a consumer of %s within %v", path2, wireTimeout)
+	}
 
 	send := func(c *rtspc.Client, ch byte, raw []byte) error { return c.WriteFrame(ch, raw) }
 	prefix := plainPrefix(esgen.H264, true, 2, 90000)
